@@ -75,8 +75,8 @@ var props = map[string]propSpec{
 		requiredProbes: []string{"event-arrived-before-its-coverage", "event-waited-at-the-gate", "wake-up-judged", "threshold-gauge-judged", "close-with-rollback-mitigation"}},
 	"C19": {level: "fault_enumeration", quickRuns: 4000, thoroughRuns: 100000, runLimit: 20 * time.Second,
 		requiredProbes: []string{"five-consecutive-failures", "stop:during-ping", "stop:during-retry-wait", "stop:between-rounds", "repeated-stop", "repeated-start"}},
-	"C10": {scenarios: []string{"C10", "C10sd"}, level: "exploration", quickRuns: 1500, thoroughRuns: 30000, runLimit: 60 * time.Second,
-		requiredProbes: []string{"stable-judged", "join-judged", "departure-judged", "stable-judged:size=1", "stable-judged:size=2", "stable-judged:size=3", "index-cas-conflict", "variant:couchbase", "variant:kubernetesHa", "leader-change-judged"}},
+	"C10": {scenarios: []string{"C10", "C10sd", "C11"}, level: "exploration", quickRuns: 2100, thoroughRuns: 30000, runLimit: 60 * time.Second,
+		requiredProbes: []string{"stable-judged", "join-judged", "departure-judged", "stable-judged:size=1", "stable-judged:size=2", "stable-judged:size=3", "index-cas-conflict", "variant:couchbase", "variant:kubernetesHa", "leader-change-judged", "announcement-filter-judged:dynamic", "follower-registered-before-the-leader-callback"}},
 	"C14": {scenarios: []string{"C14", "C14", "C14", "C10"}, level: "exploration", quickRuns: 2500, thoroughRuns: 60000, runLimit: 30 * time.Second,
 		requiredProbes: []string{"own-checkpoint-write-fed-back", "transaction-record-emitted", "reserved-prefix-event-absorbed", "checkpoint-write-judged", "absorbed-event-advanced-position", "dotted-group-name", "group-name-with-colon", "rewrite-justified-by:ack", "membership-document-write-judged"}},
 	"C20": {level: "fault_enumeration", quickRuns: 3000, thoroughRuns: 60000, runLimit: 30 * time.Second,
